@@ -108,6 +108,11 @@ Definition scalar_string_expr (ki : keyinfo) (s : str) : out expr :=
 Definition number_of (z : Z) : Z + fbits :=
   match yint_as_i64 z with Some i => inl i | None => inr (f64_of_Z z) end.
 
+(* the text a str() cast compares an integer constant outside the i64 range with: its own
+   decimal text when it is a u64 (`n.as_u64()`, fix D30), else the text of the double *)
+Definition big_int_text (z : Z) (x : fbits) : str :=
+  if (0 <=? z)%Z && (z <=? u64_max)%Z then show_Z z else f64_show o x.
+
 (* ---- sequences (parser.rs:1101-1589) ---- *)
 Record seqacc := {
   a_exact : list identifier; a_starts : list identifier; a_ends : list identifier;
@@ -183,7 +188,7 @@ Definition seq_member (ki : keyinfo) (ue : expr) (a : seqacc) (v : yaml)
       | inr x =>
           if misc_is MInt misc then Err EInvalidIdent
           else if misc_is MStr misc then
-            Ok (push_exact (flag_string a) (exact_id (f64_show o x)))
+            Ok (push_exact (flag_string a) (exact_id (big_int_text z x)))                  (* fix D30 *)
           else Ok (push_rest (flag_number a) (cmp_expr ue BEqual (EFloat x)))
       end
   | YFloat x =>
@@ -348,7 +353,7 @@ Definition parse_entry (k v : yaml) (sub : option (out expr))
             else Ok (cmp_expr e BEqual (EInt i))
         | inr x =>
             if misc_is MInt misc then Err EInvalidIdent
-            else if misc_is MStr misc then Ok (ESearch (SExact (f64_show o x)) f true)
+            else if misc_is MStr misc then Ok (ESearch (SExact (big_int_text z x)) f true)   (* fix D30 *)
             else Ok (cmp_expr e BEqual (EFloat x))
         end
     | YFloat x =>
